@@ -27,9 +27,15 @@ PROP = {
         'mathematical meaning is proved for the model, their agreement with std is by the differential run',
         'climb_layered assumes operands are not bare Combining nodes (lex_simple_expr never returns one: it '
         'returns Comparison, Parenthesized, Unary or Quantifier) and a `simple` lexer that does not return '
-        'more input than it was given (true of every lexer built on lex.rs; assumed, not proved, for simpleL)',
-        'the character-level round trip (render a tree, parse it back) is not proved here; the stream '
-        'abstraction `Unfolds` is instantiated by the differential run on real filter text',
+        'more input than it was given (proved for simpleL: Lemmas/C05Level.simpleL_good, used by '
+        'parse_render_logical)',
+        'parse_render_logical / precedence_whole_filter (character level) are stated over ABSTRACT atoms: each '
+        'atom is assumed to satisfy GoodAtom (comparisonL reads exactly its text to its Bool node before every '
+        'continuation it stops at - end of input, space, `)`, optionally `&|^` -, the text is not taken for '
+        'a unary operator or quantifier call, the node is not Combining); GoodAtom is proved for bare boolean '
+        'one-letter fields of a concrete scheme (example), for other comparisons it is exercised by the '
+        'differential run. Renderings are exactly those of Lemmas/Render/Defs.lean (any alias, any layout, a '
+        'space mandatory only between an atom and the next combining operator).',
     ],
     'trusted_base': COMMON_TRUST + [
         'modelled, not verified: Rust std integer/slice comparison operators, i64 bitand, '
@@ -50,7 +56,12 @@ TEXT = {
              'climb_layered (for ANY stream that unfolds into e0 (o1,e1)...(on,en), unbounded n, '
              'lex_more_with_precedence returns exactly the tree obtained by splitting at or, then xor, '
              'then and, with same-operator chains as one flat node) with fuel_suffices, logical_layered, '
-             'not_binds_tightest. The model tables are pinned by `decide` to the tables re-extracted from '
+             'not_binds_tightest; parse_render_logical (S, character level: every rendering - any alias per '
+             'operator occurrence, any layout - of every skeleton over GoodAtom atoms whose nesting fits the '
+             'budget is read by LogicalExpr::lex_with to exactly the declarative meaning, unbounded size, '
+             'induction on the rendering using Unfolds + climb_layered + simpleL_good for the fuel), with '
+             'corollaries precedence_whole_filter, not_binds_tightest_whole_filter, parse_render_filter '
+             '(FilterParser::parse). The model tables are pinned by `decide` to the tables re-extracted from '
              'the lex_enum! invocations, the OrderingOp masks, OrderingOp::matches{,_opt}, the '
              'gen_ordering! arm list and the two precedence comparisons of lex_more_with_precedence. The '
              'model is tied to the code by the differential stream exec-scalar (the driver parses the '
@@ -58,5 +69,6 @@ TEXT = {
     'note': 'Trusted: Lean kernel; axioms propext/Classical.choice/Quot.sound; extractor; harness. Modelled '
             'not verified: std comparison operators on i64/[u8]/IpAddr, macro expansion of lex_enum!, '
             'derive(Ord), literal lexing. climb_layered is stated over an abstract operand stream; its '
-            'instantiation at character level (parse . render = id) is by correspondence, not proof.',
+            'instantiation at character level is parse_render_logical (proved, atoms abstract under GoodAtom; '
+            'the comparison layer inside atoms is tied by correspondence).',
 }
